@@ -383,6 +383,9 @@ pub(crate) struct LogReader {
     processed (e.g. during database recoveries).
     */
     current_block_offset: usize,
+
+    /// The offset just past the last complete record that was returned by the reader.
+    last_record_end_offset: usize,
 }
 
 /// Public methods
@@ -408,6 +411,7 @@ impl LogReader {
             initial_offset: initial_block_offset,
             current_cursor_position: initial_block_offset,
             current_block_offset: 0,
+            last_record_end_offset: 0,
         };
 
         Ok(reader)
@@ -452,6 +456,7 @@ impl LogReader {
                     BlockType::Full => {
                         // Any pending fragments belong to a record whose writer died before
                         // finishing it. They are dropped.
+                        self.last_record_end_offset = self.current_cursor_position;
                         return Ok((record.data, false));
                     }
                     BlockType::First => {
@@ -469,12 +474,27 @@ impl LogReader {
                     BlockType::Last => {
                         if in_fragmented_record {
                             data_buffer.extend(record.data);
+                            self.last_record_end_offset = self.current_cursor_position;
                             return Ok((data_buffer, false));
                         }
                     }
                 }
             }
         }
+    }
+}
+
+/// Crate-only methods
+impl LogReader {
+    /**
+    Returns true if the log file ends exactly where the last complete record that was read ends.
+
+    This is only meaningful after the log was read to its end. A log with a torn tail (a partially
+    written fragment or the leading fragments of an unfinished record) must not be appended to
+    because readers cannot resynchronize on records written after the torn bytes.
+    */
+    pub(crate) fn ends_at_record_boundary(&self) -> LogIOResult<bool> {
+        Ok(self.last_record_end_offset as u64 == self.len()?)
     }
 }
 
